@@ -6,6 +6,7 @@
    object identity and mutation, not about trees: it is checked on the implementation by the harness
    (dump and per-node attribute dictionaries before/after) and belongs to the heap model of C11. *)
 From FA.Base Require Import PyAst Value Traverse.
+From FA.Gen Require Import TablesMd TablesStream.
 From FA.Model Require Import MetaData.
 From FA.Proofs Require Import MetaDataProofs MetaDataRemove MetaDataNoMd.
 
@@ -88,6 +89,11 @@ Print Assumptions remove_md_free.
 
 (* ---------------- non-vacuity ---------------- *)
 
+(* the wrapper name read from meta_data.py is the node name ObjectStream.MetaData emits (object_stream.py) *)
+Example md_name_is_emitted :
+  md_name = "MetaData" /\ existsb (fun r => String.eqb (snd (fst r)) md_name) operator_nodes = true.
+Proof. split; vm_compute; reflexivity. Qed.
+
 Definition dict1 (k : string) (z : Z) : expr := Dict [Const (CStr k)] [Const (CInt z)].
 Definition md (src d : expr) : expr := Call (Name "MetaData") [src; d] [] [].
 
@@ -154,6 +160,15 @@ Example remove_runs :
                  Call (Name "MetaData") [Name "s"; Dict [] []; Name "x"] [] [];
                  Call (Attr (Name "s") "MetaData") [Dict [] []] [] []]).
 Proof. vm_compute. reflexivity. Qed.
+
+Example remove_idem_ex :
+  forall r, remove_empty r15 = Some r -> remove_empty r = Some r /\ r <> r15.
+Proof. intros r H. vm_compute in H. inversion H; subst. split; [vm_compute; reflexivity | discriminate]. Qed.
+
+Example md_free_ex :
+  let q := Call (Name "Select") [Name "ds"; Lambda ["e"] (Call (Attr (Name "e") "MetaData") [Dict [] []] [] [])] [] [] in
+  extract q = Some (q, []) /\ remove_empty q = Some q.
+Proof. split; vm_compute; reflexivity. Qed.
 
 Example remove_raises_ex : remove_empty (md (Name "ds") (Name "x")) = None.
 Proof. vm_compute. reflexivity. Qed.
